@@ -218,6 +218,19 @@ fn post_checks(w: &World, dir_ids: &[Uuid], scen: &str, problems: &mut Vec<(Stri
 	for t in txs.iter() {
 		if t.stored_tx.is_some() {
 			if let Some(id) = t.tx_slate_id {
+				// once the private context is gone the transaction cannot be built again: the stored copy
+				// must then be the finished transaction (it is written before the context is deleted)
+				if t.tx_type == TxLogEntryType::TxSent && !t.confirmed && a.get_context(&id).is_err() {
+					if let Some(Ok(Some(slate))) = q!("get_stored_tx", a.with(|x| owner::get_stored_tx(&*x, None, Some(&id)))) {
+						let ok = slate.tx.as_ref().map(|tx| tx.validate(grin_core::core::Weighting::AsTransaction).is_ok()).unwrap_or(false);
+						if !ok {
+							problems.push((
+								format!("stored-tx-not-final/{}", scen),
+								format!("the private context of sent transaction {} is gone but the stored copy is not a valid finished transaction: it cannot be posted again", t.id),
+							));
+						}
+					}
+				}
 				// a log entry that names a stored-transaction file: the transaction, or an error —
 				// "nothing stored" would be a silent loss
 				if let Some(Ok(None)) = q!("get_stored_tx", a.with(|x| owner::get_stored_tx(&*x, None, Some(&id)))) {
@@ -475,6 +488,10 @@ fn child_main(args: &[String]) -> i32 {
 	let scen = &args[1];
 	let dir = &args[2];
 	let w = World::open(dir);
+	if scen == "__open_only__" {
+		// counts the file calls that opening the world makes, before any operation under test
+		return 0;
+	}
 	let prep = w.meta.extra["c06_prep"].clone();
 	let mut ids = vec![];
 	let r = catch(|| ops(&w, scen, &prep, &mut ids));
@@ -494,6 +511,12 @@ struct SysOut {
 }
 
 fn run_child(so: &str, scen: &str, dir: &str, k: u64, short: bool, log: Option<&str>) -> Option<i32> {
+	run_child_mode(so, scen, dir, k, short, None, log)
+}
+
+/// fail = Some("once" | "from"): the k-th counted call (or every write from it on) fails with ENOSPC and the
+/// process carries on instead of being killed
+fn run_child_mode(so: &str, scen: &str, dir: &str, k: u64, short: bool, fail: Option<&str>, log: Option<&str>) -> Option<i32> {
 	let exe = std::env::current_exe().ok()?;
 	let mut c = std::process::Command::new(exe);
 	c.args(&["c06", "child", scen, dir])
@@ -502,7 +525,15 @@ fn run_child(so: &str, scen: &str, dir: &str, k: u64, short: bool, log: Option<&
 		.env("GWV_CP_K", k.to_string())
 		.env("GWV_CP_SHORT", if short { "1" } else { "0" })
 		.stdout(std::process::Stdio::null())
-		.stderr(std::process::Stdio::null());
+		.stderr(if std::env::var("GWV_SHOW_PANICS").is_ok() { std::process::Stdio::inherit() } else { std::process::Stdio::null() });
+	match fail {
+		Some(f) => {
+			c.env("GWV_CP_FAIL", f);
+		}
+		None => {
+			c.env_remove("GWV_CP_FAIL");
+		}
+	}
 	match log {
 		Some(l) => {
 			c.env("GWV_CP_LOG", l);
@@ -518,7 +549,7 @@ fn syscall_sweep(root: &str, base: &Snapshot, references: &BTreeMap<String, u64>
 	let so = crate::props::c12::build_shim(root)?;
 	let mut out = SysOut { cases: 0, killed: 0, problems: vec![], calls_per_scenario: BTreeMap::new() };
 	// prepared snapshots + syscall counts per scenario
-	let mut jobs: Vec<(String, Snapshot, u64, bool)> = vec![];
+	let mut jobs: Vec<(String, Snapshot, u64, bool, Option<&'static str>)> = vec![];
 	for scen in SCENARIOS.iter() {
 		let dir = format!("{}/c06-sys-prep", root);
 		base.restore(&dir);
@@ -535,23 +566,41 @@ fn syscall_sweep(root: &str, base: &Snapshot, references: &BTreeMap<String, u64>
 		}
 		let lines: Vec<String> = std::fs::read_to_string(&log).unwrap_or_default().lines().map(|l| l.to_owned()).collect();
 		let n = lines.len() as u64;
+		// file calls made while the world is opened, before the operations under test start: a write error
+		// there is the failure of opening a wallet on a full disk, not of the operation
+		let n_open = {
+			let _ = std::fs::remove_file(&log);
+			snap.restore(&dir);
+			if run_child(&so, "__open_only__", &dir, 0, false, Some(&log)) != Some(0) {
+				return Err("open-only child run failed".to_owned());
+			}
+			std::fs::read_to_string(&log).unwrap_or_default().lines().count() as u64
+		};
 		out.calls_per_scenario.insert(scen.to_string(), n);
 		for k in 1..=n {
-			jobs.push((scen.to_string(), snap.clone(), k, false));
+			jobs.push((scen.to_string(), snap.clone(), k, false, None));
 			let is_write = lines[(k - 1) as usize].split(' ').nth(1).map(|x| x.contains("write")).unwrap_or(false);
 			if is_write {
-				jobs.push((scen.to_string(), snap.clone(), k, true));
+				jobs.push((scen.to_string(), snap.clone(), k, true, None));
+				// the write fails (disk full) and the process carries on: once, and from then on
+				if k > n_open {
+					jobs.push((scen.to_string(), snap.clone(), k, false, Some("once")));
+					jobs.push((scen.to_string(), snap.clone(), k, false, Some("from")));
+				}
 			}
 		}
 	}
-	let results = par_map(&jobs, workers(), |i, (scen, snap, k, short)| {
+	let results = par_map(&jobs, workers(), |i, (scen, snap, k, short, fail)| {
 		let dir = format!("{}/c06-sys-{}", root, i);
 		snap.restore(&dir);
-		let code = run_child(&so, scen, &dir, *k, *short, None);
+		let code = run_child_mode(&so, scen, &dir, *k, *short, *fail, None);
 		let mut problems = vec![];
 		let killed = code == Some(77);
-		if !killed && code != Some(0) && code != Some(3) {
-			problems.push((format!("syscall-kill/child-exit/{}", scen), format!("child exited with {:?}", code)));
+		// 0: the operations completed, 3: they returned an error, 4 (write-error mode only): they panicked on the
+		// failed write - counted like the seam-level outcome "panicked-on-write-error": the process dies, and what
+		// matters here is the state it leaves behind
+		if !killed && code != Some(0) && code != Some(3) && !(fail.is_some() && code == Some(4)) {
+			problems.push((format!("{}/child-exit/{}", if fail.is_some() { "write-error" } else { "syscall-kill" }, scen), format!("child exited with {:?}", code)));
 		}
 		let dir_ids = context_ids(&dir);
 		let spendable = match catch(|| World::open(&dir)) {
@@ -569,7 +618,7 @@ fn syscall_sweep(root: &str, base: &Snapshot, references: &BTreeMap<String, u64>
 		let _ = std::fs::remove_dir_all(&dir);
 		(killed, problems, spendable)
 	});
-	for ((scen, _, k, short), (killed, problems, spendable)) in jobs.iter().zip(results.into_iter()) {
+	for ((scen, _, k, short, fail), (killed, problems, spendable)) in jobs.iter().zip(results.into_iter()) {
 		out.cases += 1;
 		if killed {
 			out.killed += 1;
@@ -581,7 +630,10 @@ fn syscall_sweep(root: &str, base: &Snapshot, references: &BTreeMap<String, u64>
 			}
 		}
 		for (key, what) in ps {
-			out.problems.push((format!("syscall-kill/{}", key), format!("{} — scenario {}, process killed before file call #{}{}", what, scen, k, if *short { " (after a half write)" } else { "" }), json!({"scenario": scen, "syscall": k, "short": short})));
+			match fail {
+				None => out.problems.push((format!("syscall-kill/{}", key), format!("{} — scenario {}, process killed before file call #{}{}", what, scen, k, if *short { " (after a half write)" } else { "" }), json!({"scenario": scen, "syscall": k, "short": short}))),
+				Some(f) => out.problems.push((format!("write-error/{}", key), format!("{} — scenario {}, file call #{} failed with ENOSPC ({}) and the process carried on", what, scen, k, if *f == "once" { "that call only" } else { "and every write after it" }), json!({"scenario": scen, "syscall": k, "short": false, "fail": f}))),
+			}
 		}
 	}
 	Ok(out)
@@ -594,6 +646,35 @@ pub fn replay(payload: &Value) -> i32 {
 	base_world(&based);
 	let base = Snapshot::capture(&based);
 	let scen = payload["scenario"].as_str().unwrap().to_owned();
+	if let Some(k) = payload["syscall"].as_u64() {
+		// one case of the file-call sweep: kill before (or ENOSPC at) the k-th mutating file call
+		let so = match crate::props::c12::build_shim(&root) {
+			Ok(s) => s,
+			Err(e) => {
+				println!("cannot build the interposer: {}", e);
+				return 2;
+			}
+		};
+		let dir = format!("{}/c06-replay-sys", root);
+		base.restore(&dir);
+		let mut w = World::open(&dir);
+		let prep = prepare(&w, &scen);
+		w.meta.extra["c06_prep"] = prep;
+		w.close();
+		let code = run_child_mode(&so, &scen, &dir, k, payload["short"].as_bool().unwrap_or(false), payload["fail"].as_str(), None);
+		let mut problems = vec![];
+		let dir_ids = context_ids(&dir);
+		match catch(|| World::open(&dir)) {
+			Ok(w) => {
+				post_checks(&w, &dir_ids, &scen, &mut problems);
+				let _ = recover_and_measure(&w, &scen, &mut problems);
+				w.close();
+			}
+			Err(p) => problems.push(("reopen-fails".into(), p)),
+		}
+		println!("child exit code {:?}; problems: {:?}", code, problems);
+		return if problems.is_empty() { 0 } else { 1 };
+	}
 	let plan = if payload["effect"].is_null() { None } else { Some((payload["effect"].as_u64().unwrap(), fault_from(payload["fault"].as_str().unwrap()))) };
 	let r = run_once(&base, &format!("{}/c06-replay", root), &scen, plan);
 	println!("{:?}", r);
